@@ -2830,6 +2830,17 @@ func (db *DB) Import(ctx context.Context, r io.Reader) error {
 	}
 	defer guard.Unlock()
 
+	// Convert the whole image to an LTX file first. If the image cannot be read
+	// or is not valid then nothing has been changed yet and the import fails
+	// without affecting the existing database.
+	pos, err := db.importToLTX(ctx, r)
+	if err != nil {
+		return err
+	}
+
+	// The import replaces the entire database so any journal or WAL content
+	// is obsolete once the LTX file is in place.
+
 	// Invalidate journal, if one exists.
 	if err := db.invalidateJournal(JournalModePersist); err != nil {
 		return fmt.Errorf("invalidate journal: %w", err)
@@ -2840,11 +2851,6 @@ func (db *DB) Import(ctx context.Context, r io.Reader) error {
 		if err := db.TruncateWAL(ctx, 0); err != nil {
 			return fmt.Errorf("truncate wal: %w", err)
 		}
-	}
-
-	pos, err := db.importToLTX(ctx, r)
-	if err != nil {
-		return err
 	}
 
 	return db.ApplyLTXNoLock(db.LTXPath(pos.TXID, pos.TXID), true)
